@@ -40,6 +40,10 @@ def c06(proj, rep, tier):
     n = boundary.c1(proj, rep)
     rep.floor('C1 SDP / LP builders', n, 4)
     n = numeric.t2(proj, rep, ['numqi.entangle.ppt.get_generalized_ppt_boundary'])
+    n = kdefects.n2(proj, rep, ['numqi.gellmann', 'numqi.entangle.symext', 'numqi.entangle.ppt', 'numqi.entangle.cha', 'numqi.entangle._misc'])
+    rep.floor('N2 norms of explicitly batched vectors', n, 1)
+    n = kdefects.ar1(proj, rep, None)
+    rep.floor('AR1 ordered-role call sites in the package', n, 12)
     rep.assume('threshold exactness, interpolation distance, every beta inequality of the hierarchy and "inner-model states pass '
                'outer tests" are eigenvalue / solver quantities: not decided. Decided: the structural necessary conditions - a genuine '
                'partial transpose for symbolic dims, monotone intersection of intervals, complete constraint sets that only grow.')
@@ -48,6 +52,10 @@ def c06(proj, rep, tier):
 def c13(proj, rep, tier):
     n = convexroof.v1(proj, rep)
     rep.floor('V1 convex-roof model obligations', n, 18)
+    n = convexroof.v2(proj, rep, ['numqi.entangle.eof', 'numqi.entangle.measure'])
+    rep.floor('V2 state-derived attributes of the convex-roof setters', n, 6)
+    n = manifold.w5(proj, rep, ['numqi.manifold._stiefel.to_stiefel_polar'])
+    rep.floor('W5 Gram-matrix orthonormalisation of the Stiefel map used by the models', n, 2)
     n = numeric.f1(proj, rep, ['numqi.entangle.eof', 'numqi.entangle.measure'])
     rep.floor('F1 log sites in eof / measure', n, 2)
     n = numeric.f2(proj, rep, ['numqi.entangle.eof', 'numqi.entangle.measure'])
@@ -131,6 +139,8 @@ def c01(proj, rep, tier):
     nf, ne = shapes.sh1(proj, rep, SH1_FUNCS)
     rep.floor('SH1 batched manifold maps whose batch axis is tracked', nf, 7)
     rep.floor('SH1 array expressions typed with a batch-axis position', ne, 120)
+    n = manifold.w5(proj, rep, ['numqi.manifold._stiefel.to_stiefel_polar', 'numqi.manifold._stiefel.to_stiefel_choleskyL'])
+    rep.floor('W5 Gram-matrix orthonormalisations', n, 4)
     n = numeric.f4(proj, rep, MANIFOLD)
     rep.floor('F4 hand-written softplus sites', n, 1)
     n = shapes.sh2(proj, rep)
@@ -316,6 +326,14 @@ def c18(proj, rep, tier):
     rep.floor('MS1 sites in the closed-form Werner / isotropic EOF', ns, 10)
     n = masks.ms2(proj, rep, [k for k in MS1_FUNCS if 'state._internal' in k])
     rep.floor('MS2 mask-guarded update blocks in the closed forms', n, 3)
+    n = hermitian.pj1(proj, rep, ['numqi.entangle.upb', 'numqi.matrix_space._misc', 'numqi.matrix_space._geometric_measure', 'numqi.manifold._misc'])
+    rep.floor('PJ1 complement-projector sites', n, 4)
+    n = kdefects.dt1(proj, rep, mods)
+    rep.floor('DT1 buffers typed after a parameter', n, 1)
+    n = kdefects.st1(proj, rep, mods)
+    rep.floor('ST1 list-derived values', n, 2)
+    n = ownership.o3(proj, rep, ['numqi.state._internal', 'numqi.entangle.upb', 'numqi.dicke'])
+    rep.floor('O3 public constructors of numqi.state / entangle.upb', n, 20)
 
 
 def c20(proj, rep, tier):
@@ -325,6 +343,10 @@ def c20(proj, rep, tier):
     rep.floor('T2 tolerance-direction sites (C20)', n, 3)
     n = numeric.t3(proj, rep, DECISION_C20)
     rep.floor('T3 thresholds checked against the precision class (C20)', n, 3)
+    n = gellmann.g5(proj, rep)
+    rep.floor('G5 (basis, complement) return pairs', n, 7)
+    nf, ns = shapes.sh3(proj, rep, ['numqi.matrix_space._numerical_range', 'numqi.matrix_space._hierarchy', 'numqi.matrix_space._misc'])
+    rep.floor('SH3 reshape sites whose axis roles are tracked (matrix_space)', ns, 3)
     nsite, ntyped = gellmann.g2(proj, rep, ['numqi.matrix_space._misc'])
     rep.floor('G2 projected synthesis sites in matrix_space._misc', ntyped, 2)
     n = gellmann.g3(proj, rep, ['numqi.matrix_space._misc.get_matrix_orthogonal_basis',
@@ -334,11 +356,13 @@ def c20(proj, rep, tier):
 
 def c17(proj, rep, tier):
     n = ptrace.pt1(proj, rep)
-    rep.floor('PT1 partial_trace leg-typing obligations', n, 4)
+    rep.floor('PT1 partial_trace leg-typing obligations', n, 5)
     n = ptrace.pt2(proj, rep)
     rep.floor('PT2 Dicke reduction table obligations', n, 3)
     n = ptrace.pt3(proj, rep)
-    rep.floor('PT3 reduction contraction / reorder obligations', n, 3)
+    rep.floor('PT3 reduction contraction / reorder obligations', n, 4)
+    n = ownership.o3(proj, rep, ['numqi.dicke'])
+    rep.floor('O3 public functions of numqi.dicke', n, 6)
     backend.b1(proj, rep, ['numqi.dicke'], expect_match={'numqi.dicke.partial_trace_ABk_to_AB#0'})
     rep.assume('orthonormality / permutation invariance of the Dicke vectors and the occupation-number identity itself '
                '(<r|D_a><D_b|s> summed over the other copies) are value-level: not decided')
@@ -346,7 +370,7 @@ def c17(proj, rep, tier):
 
 def c09(proj, rep, tier):
     n = symplectic.sp1(proj, rep)
-    rep.floor('SP1 radix arms', n, 4)
+    rep.floor('SP1 radix arms', n, 5)
     n = symplectic.sp2(proj, rep)
     rep.floor('SP2 embedding / extraction', n, 2)
     n = symplectic.sp3(proj, rep)
@@ -354,7 +378,7 @@ def c09(proj, rep, tier):
     n = symplectic.sp4(proj, rep)
     rep.floor('SP4 bit/byte order', n, 1)
     n = symplectic.sp5(proj, rep)
-    rep.floor('SP5 inner product / transvection / inverse', n, 3)
+    rep.floor('SP5 inner product / transvection / inverse / purity', n, 4)
     n = symplectic.sp6(proj, rep)
     rep.floor('SP6 find_transvection twin blocks', n, 1)
     n = seed.s5(proj, rep, ['numqi.random._spf2'])
